@@ -30,10 +30,15 @@ THEOREMS = ["copy_reassembles", "restore_any_reader", "restore_snapshot", "snaps
             "staged_restore_installs", "staged_restore_db_eq_plain", "staged_restore_nil", "staged_extends_plain",
             "calls_during_stream_see_old", "staged_restore_snapshot", "staged_snapshot_id_kept",
             "staged_restore_fires_listeners", "staged_timeline_once", "staged_restore_then_timeline_fresh",
-            "staged_model_meets_spec", "staged_oracle_accepts_model", "dbimpl_state_modelled"]
+            "staged_model_meets_spec", "staged_oracle_accepts_model", "dbimpl_state_modelled",
+            # GetTimelineId under concurrent requests, one atomic step per bolt transaction (C17/TimelineConc.lean)
+            "timeline_once_concurrent", "timeline_steps_expected", "marker_steps_expected",
+            "code_timeline_once_concurrent", "split_program_generates_twice"]
 TABLE_OBLIGATIONS = ["restore_under_write_lock (Generated/DbLocks.lean, regenerated from boltz/db.go)",
                      "tx_entry_points_guarded (same table)", "no_reentrant_read_lock (same table)",
                      "all_entry_points_flat (same table)",
+                     "timeline_steps_expected (dbMetaOps: bolt transactions of GetTimelineId and the marker reads / guard / idF / writes inside, same file)",
+                     "marker_steps_expected (dbMetaOps: GetSnapshotId, MarkAsSnapshot, same file)",
                      "dbimpl_state_modelled (field list of `type DbImpl struct` + package-level vars of boltz/db.go, same file)"]
 
 RULE = ("sequential histories over {Update commit/rollback, Snapshot, View+SnapshotInTx, Update+SnapshotInTx, failing "
@@ -44,7 +49,9 @@ RULE = ("sequential histories over {Update commit/rollback, Snapshot, View+Snaps
         "the property's shape (route x restore call x mode), every chunk size x EOF style against a small snapshot (and against a > 1 MB one: 4 in quick, all in thorough) + seeded random ones (75% forced to contain snapshot ... "
         "restore; gsid; 2 timeline requests; dump); concurrent populations of View/Update/Batch/StreamToWriter/"
         "GetSnapshotId/GetTimelineId goroutines against RestoreSnapshot goroutines (each transaction must read all "
-        "keys equal, twice), with and without concurrent Snapshot, and 3 staged re-entrancy scenarios, all under a "
+        "keys equal, twice), with and without concurrent Snapshot, 3 staged re-entrancy scenarios, and K (2-8) GetTimelineId requests (default / initIfEmpty) released "
+        "together after a restore with the first idF call holding its write transaction open for up to 200 ms (one idF call, one id "
+        "returned by all, stored, and returned by a later request), all under a "
         "2.5 s watchdog. non-trivial = sequential history in which a restore of an existing slot happened after a "
         "committed write that followed the slot's snapshot, or a concurrent/staged case; distinct = case line")
 
@@ -58,7 +65,7 @@ def _unhex(h):
 
 def nontrivial(case, impl):
     f = case.split(" ")
-    if f[0] in ("conc", "stage"):
+    if f[0] in ("conc", "stage", "tlconc"):
         return case
     if f[0] != "seq":
         return None
